@@ -81,6 +81,12 @@ from experimaestro import experiment
 wd, name, marker, hold = sys.argv[1], sys.argv[2], Path(sys.argv[3]), Path(sys.argv[4])
 Path(str(marker) + ".try").write_text("trying")
 with experiment(wd, name, port=-1) as xp:
+    if len(sys.argv) > 5:
+        # the first process runs a one-job plan to its end
+        from xvschema.wstask import W
+        xp.workspace.launcher.setenv("PYTHONPATH", sys.argv[5])
+        t = W(n=1); t.submit(); t.__xpm__.job.wait()
+        Path(str(marker) + ".job").write_text(str(t.__xpm__.job.relpath))
     marker.write_text("in")
     while not hold.exists():
         time.sleep(0.01)
@@ -99,7 +105,7 @@ def lock_exclusion(rep, n):
             rep.cov["evaluations"] += 1
             wd = root / f"ws{i}"
             m1, m2, h1, h2 = (root / f"{i}.{x}" for x in ("m1", "m2", "h1", "h2"))
-            p1 = subprocess.Popen(["/venv/bin/python", "-W", "ignore", "-c", LOCK_PROG, str(wd), "x", str(m1), str(h1)], env=env,
+            p1 = subprocess.Popen(["/venv/bin/python", "-W", "ignore", "-c", LOCK_PROG, str(wd), "x", str(m1), str(h1), env["PYTHONPATH"]], env=env,
                                   stdout=subprocess.DEVNULL, stderr=subprocess.DEVNULL)
             t0 = time.time()
             while not m1.exists() and time.time() - t0 < 60:
@@ -110,7 +116,6 @@ def lock_exclusion(rep, n):
                 continue
             p2 = subprocess.Popen(["/venv/bin/python", "-W", "ignore", "-c", LOCK_PROG, str(wd), "x", str(m2), str(h2)], env=env,
                                   stdout=subprocess.DEVNULL, stderr=subprocess.DEVNULL)
-            h2.write_text("go")
             t0 = time.time()
             while not Path(str(m2) + ".try").exists() and time.time() - t0 < 60:
                 time.sleep(0.02)
@@ -121,6 +126,18 @@ def lock_exclusion(rep, n):
             if both:
                 rep.violation("C16/lock/two-holders", "two processes are inside the same experiment of the same workspace at once", {"lock": True})
             h1.write_text("go")
+            # the first process leaves, the second one enters and stays inside: the plan the first one completed is still
+            # on record (index, or backup index now that a new run has begun)
+            t0 = time.time()
+            while not m2.exists() and time.time() - t0 < 60:
+                time.sleep(0.02)
+            jobf = Path(str(m1) + ".job")
+            if m2.exists() and jobf.exists() and not both:
+                rel = jobf.read_text()
+                if not any((wd / "xp" / "x" / d / rel).is_symlink() for d in ("jobs", "jobs.bak")):
+                    rep.violation("C16/lock/plan-lost-by-refused-entrant", "a process waiting to enter a running experiment has destroyed the record of "
+                                  "the plan the running process then completed: its job is linked neither by the index nor by the backup index", {"lock": True})
+            h2.write_text("go")
             for p in (p1, p2):
                 try:
                     p.wait(timeout=60)
